@@ -34,6 +34,10 @@ def support(mjm, mjd, g, n):
     return c @ n + float(np.sum(s * np.abs(R.T @ n)))
   if t == T.mjGEOM_PLANE:
     return c @ n  # valid only for n = plane normal (half space below the plane)
+  if t == T.mjGEOM_MESH:  # convex polytope: the furthest vertex
+    mid = int(mjm.geom_dataid[g])
+    v = np.array(mjm.mesh_vert[mjm.mesh_vertadr[mid] : mjm.mesh_vertadr[mid] + mjm.mesh_vertnum[mid]], dtype=np.float64)
+    return c @ n + float(np.max(v @ (R.T @ n)))
   raise AssertionError(t)
 
 
